@@ -439,7 +439,44 @@ func (e *explorer) record(ex *Exec, ps PathStat) {
 	}
 	r.Paths++
 	r.Kinds[ps.Kind]++
+	if os.Getenv("VERIF_PATHLOG") != "" {
+		sig := ""
+		for _, dd := range ex.trail {
+			switch dd.Kind {
+			case 'b':
+				if dd.AltOpen || dd.AltChecked {
+					if dd.Taken {
+						sig += "T"
+					} else {
+						sig += "F"
+					}
+				}
+			case 'c':
+				sig += fmt.Sprintf("<%d>", dd.Choice)
+			case 'v':
+				sig += fmt.Sprintf("[%x%v]", dd.Val, dd.Taken)
+			}
+		}
+		fmt.Fprintf(os.Stderr, "PATH %s %s\n", ps.Kind, sig)
+	}
 	if e.w.verbose && r.Paths%200 == 0 {
+		nb, nc, nv := 0, 0, 0
+		desc := ""
+		wh := map[string]int{}
+		defer func() { fmt.Fprintf(os.Stderr, "     where: %v\n", wh) }()
+		for _, dd := range ex.trail {
+			switch dd.Kind {
+			case 'b':
+				wh[dd.Where]++
+				nb++
+			case 'c':
+				nc++
+				desc += fmt.Sprintf("%d/%d ", dd.Choice, dd.N)
+			case 'v':
+				nv++
+			}
+		}
+		fmt.Fprintf(os.Stderr, "     trail: branches=%d choices=%d picks=%d [%s]\n", nb, nc, nv, desc)
 		fmt.Fprintf(os.Stderr, "  .. %s: %d paths %v pruned=%d\n", r.Name, r.Paths, r.Kinds, r.Pruned)
 	}
 	r.Asserts += ps.Asserts
